@@ -65,7 +65,7 @@ def case(item):
             cmds.append(dict(argv=[rnd.choice(qnames)], extra=extra, delay=rnd.random() * 0.05))
         if not fresh and nquery:
             cmds.append(dict(argv=['redo-log', 'shmid'], extra=extra, delay=rnd.random() * 0.05))
-        res = pj.run_many(cmds, timeout=90)
+        res = pj.run_many(cmds, timeout=90, barrier=('spin' if seed < 0 else (seed % 2 == 0)))
         obs['invocations'] = len(cmds)
         logs = pj.logs_text()
         for c, r in zip(cmds, res):
@@ -125,7 +125,7 @@ def case(item):
     return r
 
 
-RULE = ('rounds of n in {2,4,8,16} invocations released within a few milliseconds against one project: redo / redo -j3 / redo-ifchange on '
+RULE = ('rounds of n in {2,4,8,16} invocations released within a few milliseconds (half of the rounds: released in the same instant through a FIFO barrier; extra fresh-project rounds with busy-waiting starters) against one project: redo / redo -j3 / redo-ifchange on '
         'private sub-graphs (optionally sharing two targets) plus redo-ood / redo-targets / redo-sources / redo-log; on an existing '
         'project and on a project without .redo (first-creation race); with delay hooks inside start-up (between the existence test and '
         'connect, between the schema read and the run-id insert). All scripts succeed by construction, so every invocation must exit 0; '
@@ -149,6 +149,10 @@ def main(tier):
     deadline = time.time() + (80 if quick else 800)
     # rounds are themselves parallel: run a few at a time so that invocations really coincide
     for r in common.pmap(case, items, procs=4, deadline=deadline):
+        col.add(r)
+    # rounds whose starters busy-wait for the go signal (tightest simultaneity): one round at a time, <= 12 starters
+    spin = [(ninv, True, False, 12 - ninv, None, -1 - i) for i, ninv in enumerate([6, 8, 4, 6, 8, 6] * (4 if quick else 40))]
+    for r in common.pmap(case, spin, procs=1, deadline=time.time() + (40 if quick else 400)):
         col.add(r)
     rc = col.finish()
     common.cleanup_scratch()
